@@ -11,8 +11,14 @@ from . import core
 
 CHECKS = {
     # property id -> module under harness/ providing run(tier, seed, verdict)
+    "C02": "c02",
+    "C03": "c03",
+    "C04": "c04",
+    "C05": "c05",
     "C07": "c07",
     "C09": "c09",
+    "C12": "c12",
+    "C19": "c19",
 }
 
 
